@@ -259,13 +259,13 @@ def ir_json(run, src_text, name, ndebug=True, extra=()):
     return outp
 
 
-def ast_json(run, src_text, name, ndebug=True, funcs="", extra=(), want_vars=True):
+def ast_json(run, src_text, name, ndebug=True, funcs="", extra=(), cfg="", refs=False, self_root=False):
     """witness source text -> path of AST JSON produced by the yast plugin.
     funcs: '|'-separated substrings; only functions whose qualified name contains one are dumped
     ('' = every function defined under <root>/include/yorel)."""
     os.makedirs(CACHE, exist_ok=True)
     flags = base_flags(run, ndebug, extra)
-    key = _sha("ast", run.header_hash(), src_text, " ".join(flags).replace(run.inc, "@INC"), funcs, _tool_hash(YAST))
+    key = _sha("ast", run.header_hash(), src_text, " ".join(flags).replace(run.inc, "@INC"), funcs, cfg, str(refs), str(self_root), _tool_hash(YAST))
     outp = os.path.join(CACHE, "%s.%s.ast.json" % (name, key))
     if os.path.exists(outp) and not os.environ.get("YV_NOCACHE"):
         return outp
@@ -277,9 +277,12 @@ def ast_json(run, src_text, name, ndebug=True, funcs="", extra=(), want_vars=Tru
     tmp = outp + ".tmp%d" % os.getpid()
     cmd = [CXX] + flags + ["-fsyntax-only", "-fplugin=" + YAST,
                            "-Xclang", "-plugin-arg-yast", "-Xclang", "out=" + tmp,
-                           "-Xclang", "-plugin-arg-yast", "-Xclang", "root=" + run.inc,
+                           "-Xclang", "-plugin-arg-yast", "-Xclang", "root=" + run.inc + (("|" + wd) if self_root else ""),
                            "-Xclang", "-plugin-arg-yast", "-Xclang", "funcs=" + funcs,
-                           src]
+                           "-Xclang", "-plugin-arg-yast", "-Xclang", "cfg=" + cfg]
+    if refs:
+        cmd += ["-Xclang", "-plugin-arg-yast", "-Xclang", "refs=1"]
+    cmd.append(src)
     r = sh(cmd)
     if r.returncode != 0 or not os.path.exists(tmp):
         raise AnalysisBroken("witness %s does not parse / plugin failed:\n%s" % (name, r.stderr[-3000:]))
